@@ -2,13 +2,13 @@
 # try_clone.sh <patch.diff> <tier> <prop> [<prop>...] : like try_seed.sh but on a scratch clone of /repo (KNEE_REPO), so
 # that /repo and /verif/evidence are never touched and several runs can go on in parallel.
 p=$1; tier=$2; shift 2
-d=$(mktemp -d /tmp/clone.XXXX); git clone -q --no-hardlinks /repo $d/repo
+d=$(mktemp -d /tmp/clone.XXXX); git clone -q --no-hardlinks /repo $d/repo; [ -n "$BASE" ] && git -C $d/repo checkout -q $BASE
 git -C $d/repo apply $p || { echo "PATCH DOES NOT APPLY"; rm -rf $d; exit 2; }
 t=$(cd $d/repo && PYTHONPATH=$d/repo/src /venv/bin/python -m pytest -q -p no:cacheprovider test 2>&1 | tail -1)
 echo "repo tests on the clone: $t"
 mkdir -p $d/ev
 for c in "$@"; do
-  out=$(cd /verif && KNEE_REPO=$d/repo VERIF_EVIDENCE_DIR=$d/ev VERIF_REPLAY_DIR=$d/ev VERIF_SEED=${VERIF_SEED:-0} ./check $c $tier 2>&1); rc=$?
+  out=$(cd ${VERIF_DIR:-/verif} && KNEE_REPO=$d/repo VERIF_EVIDENCE_DIR=$d/ev VERIF_REPLAY_DIR=$d/ev VERIF_SEED=${VERIF_SEED:-0} ./check $c $tier 2>&1); rc=$?
   echo "== $c $tier exit=$rc"; echo "$out" | grep -E "VIOLATION|signature=|input=|detail=|HARNESS|Traceback|Error" | cut -c1-400 | head -${LINES_MAX:-12}; echo "$out" | grep -E "^C[0-9]+ (quick|thorough)" | cut -c1-200
 done
 rm -rf $d
